@@ -609,6 +609,24 @@ pub fn run(args: &Args) -> i32 {
             let mut lrng = rng_for(seed, &format!("c18-lines/{}", case)); // per case, so that --only reproduces the sample
             let outdir = scratch.join(case.replace('/', "_"));
             let _ = std::fs::remove_dir_all(&outdir);
+            // one case in three writes into a directory that already holds the output of a computation for ANOTHER
+            // discriminant (the same way, library or program): what is in the files afterwards must belong to this run
+            if lrng.gen_range(0..3) == 0 {
+                let other = if c.n == Uint::from(10148u64) { Uint::from(424708u64) } else { Uint::from(10148u64) };
+                let _ = if cli {
+                    run_classgroup_cli(&ymcls, other, 0, false, outdir.clone(), 300.0).map(|_| ())
+                } else {
+                    run_classgroup(other, 0, false, outdir.clone(), 300.0).map(|_| ())
+                };
+                // only the relation file is left behind (the other files are read back only where this run writes them)
+                if let Ok(rd) = std::fs::read_dir(&outdir) {
+                    for f in rd.flatten() {
+                        if f.file_name() != "relations.sieve" {
+                            let _ = std::fs::remove_file(f.path());
+                        }
+                    }
+                }
+            }
             // normal time: < 1 s up to 128 bits
             let r = if cli {
                 run_classgroup_cli(&ymcls, c.n, threads, dbl, outdir.clone(), 900.0)
